@@ -96,4 +96,8 @@ LAYER_I = {'C13': ('A,C', ['bid128_is_signed', 'bid128_is_nan', 'bid128_is_inf',
 import os as _os, re as _re
 _HELPERS = _re.findall(r"'(__\w+)'", _re.search(r'HELPERS = \[(.*?)\]', open(_os.path.join(_os.path.dirname(_os.path.dirname(_os.path.abspath(__file__))), 'layerI', 'rs2v.py')).read(), _re.S).group(1))
 for _k in ('C01', 'C02', 'C10', 'C16'): LAYER_I[_k] = ('H', list(_HELPERS))
+LAYER_I['C17'] = ('N', ['bid128_nextup', 'bid128_nextdown'])
 for _k, _v in LAYER_I.items(): PROPS[_k]['layerI'] = _v
+# partial theorems (a stated sub-domain only) are obligations of the thorough tier
+PROPS['C17']['layerI_thorough'] = ('NP', ['bid128_nextafter', 'bid128_nexttoward'])
+PROPS['C06']['layerI_thorough'] = ('J', ['bid128_to_int32_rnint'])
